@@ -774,6 +774,12 @@ static void x_once(const plan_t *p)
             struct xelem *e;
             size_t key = spread ? (size_t)(o->a[1] * 0x9e3779b97f4a7c15ull >> 16) : (size_t)(o->a[1] % (uint64_t)keys);
             if (m->nlive >= maxe) goto do_erase;
+            if (nlimbo > 0 && (o->a[2] & 6) == 2) {
+                /* an element that was erased earlier goes back in: the same object, the same address */
+                e = limbo[--nlimbo];
+                e->hn.key = 0xdeadbeef; e->hn.next = (void *)(uintptr_t)0x5151515151515151ull; e->hn2 = e->hn;
+                PROBE("recycled_element_inserted");
+            } else
             e = new_elem();
             e->nk = m->kind;
             TRY(cstl_hash_insert(&tb[t], key, HND(e)));
